@@ -12,6 +12,10 @@
 #include <map>
 #include <string>
 #include <unistd.h>
+#include <dlfcn.h>
+#include <pthread.h>
+#include <cerrno>
+#include <ctime>
 
 namespace {
 std::map<std::string, long long> g_inputs;
@@ -19,6 +23,9 @@ std::map<std::string, int> g_count;
 FILE *g_trace = nullptr;
 int g_failed = 0;
 long long g_clock = 1700000000000000000LL;
+long long g_step_lo = 1000, g_step_hi = 1000, g_late_max = 0;
+void *g_wait_cv = nullptr;
+bool g_notified = false;
 bool g_init = false;
 
 void init() {
@@ -36,6 +43,8 @@ void init() {
         }
     }
 }
+thread_local bool t_harness_thread = false;
+template <class F> F real_fn(const char *name) { return reinterpret_cast<F>(dlsym(RTLD_NEXT, name)); }
 void finish(int code) {
     if (g_trace) fflush(g_trace);
     _exit(code);
@@ -76,22 +85,71 @@ int verif_spawn(void (*)(void *), void *) { init(); fprintf(g_trace, "CRASH nati
 void verif_join(int) {}
 void verif_yield(void) {}
 
-std::int64_t verif_clock_hook(void) __attribute__((weak));
+void verif_clock_config(std::int64_t lo, std::int64_t hi, std::int64_t late) { g_step_lo = lo; g_step_hi = hi; g_late_max = late; }
+static std::int64_t ranged_input(const char *name, std::int64_t lo, std::int64_t hi) {
+    int k = g_count[name]++;
+    auto it = g_inputs.find(std::string(name) + "#" + std::to_string(k));
+    std::int64_t v = it == g_inputs.end() ? lo : it->second;
+    if (v < lo || v > hi) { fprintf(g_trace, "ASSUME-FAILED\n"); finish(4); }
+    return v;
+}
 // interpose the clocks the runtime reads (the executable's definition wins over libstdc++.so)
 std::int64_t verif_native_clock_now() __asm__("_ZNSt6chrono3_V212system_clock3nowEv");
 std::int64_t verif_native_clock_now() {
-    if (verif_clock_hook) return verif_clock_hook();
+    init();
     long long now = g_clock;
-    g_clock += 1000;
+    g_clock += g_step_hi > g_step_lo ? ranged_input("clk", g_step_lo, g_step_hi) : g_step_lo;
     return now;
 }
 std::int64_t verif_native_steady_now() __asm__("_ZNSt6chrono3_V212steady_clock3nowEv");
 std::int64_t verif_native_steady_now() { return verif_native_clock_now(); }
 
+void verif_wait_hook(void) __attribute__((weak));
+// Single-threaded model of condition waits, identical to symx's: release the mutex, let the environment act
+// through verif_wait_hook, then return notified or time out with the virtual clock moved to the deadline.
+static int native_wait(pthread_cond_t *cond, pthread_mutex_t *mutex, const struct timespec *abstime) {
+    init();
+    g_wait_cv = cond;
+    g_notified = false;
+    pthread_mutex_unlock(mutex);
+    if (verif_wait_hook) verif_wait_hook();
+    pthread_mutex_lock(mutex);
+    g_wait_cv = nullptr;
+    if (g_notified) { g_notified = false; return 0; }
+    if (!abstime) { fprintf(g_trace, "CRASH deadlock: untimed condition wait that nobody can notify\n"); finish(5); }
+    long long deadline = (long long)abstime->tv_sec * 1000000000LL + abstime->tv_nsec;
+    long long late = g_late_max > 0 ? ranged_input("late", 0, g_late_max) : 0;
+    g_clock = (g_clock > deadline ? g_clock : deadline) + late;
+    return ETIMEDOUT;
+}
+// Only waits issued by the harness thread are modelled; any other thread in the process (e.g. libarrow's
+// jemalloc background thread) gets the real implementation.
+int pthread_cond_clockwait(pthread_cond_t *c, pthread_mutex_t *m, clockid_t k, const struct timespec *t) {
+    if (!t_harness_thread) return real_fn<int (*)(pthread_cond_t *, pthread_mutex_t *, clockid_t, const struct timespec *)>("pthread_cond_clockwait")(c, m, k, t);
+    return native_wait(c, m, t);
+}
+int pthread_cond_timedwait(pthread_cond_t *c, pthread_mutex_t *m, const struct timespec *t) {
+    if (!t_harness_thread) return real_fn<int (*)(pthread_cond_t *, pthread_mutex_t *, const struct timespec *)>("pthread_cond_timedwait")(c, m, t);
+    return native_wait(c, m, t);
+}
+int pthread_cond_wait(pthread_cond_t *c, pthread_mutex_t *m) {
+    if (!t_harness_thread) return real_fn<int (*)(pthread_cond_t *, pthread_mutex_t *)>("pthread_cond_wait")(c, m);
+    return native_wait(c, m, nullptr);
+}
+int pthread_cond_broadcast(pthread_cond_t *c) {
+    if (t_harness_thread && g_wait_cv == c) g_notified = true;
+    return real_fn<int (*)(pthread_cond_t *)>("pthread_cond_broadcast")(c);
+}
+int pthread_cond_signal(pthread_cond_t *c) {
+    if (t_harness_thread && g_wait_cv == c) g_notified = true;
+    return real_fn<int (*)(pthread_cond_t *)>("pthread_cond_signal")(c);
+}
+
 int harness_main();
 }
 
 int main() {
+    t_harness_thread = true;
     init();
     signal(SIGSEGV, on_signal);
     signal(SIGABRT, on_signal);
